@@ -14,7 +14,9 @@ from . import analysis
 
 rule("C20.a", "one execution variable per order with bounds [0, 1] (l zeros, u ones, c: all sized by the number of orders)", floor=3)
 rule("C20.b", "full execution flags every row of the order book as boolean", floor=1)
-rule("C20.c", "cost, delivered volume and covered steps of an order use one step selector; one order index keys cost and rows", floor=3)
+rule("C20.c", "cost, delivered volume and covered steps of an order use one step selector; one order index keys cost and rows (an order variable "
+              "carries a cost exactly when it has mapping rows: otherwise its cash flow is in the optimal value but in no asset's cash flows)", floor=3,
+     props=["C20", "C04"])
 rule("C20.f", "the order report de-duplicates the mapping by index and reads x and c at the variable label", floor=2)
 
 
